@@ -137,6 +137,10 @@ type Scenario struct {
 	LateHup int `json:",omitempty"`
 	// MetDead: metrics go over OTLP to a collector that is gone (its shutdown fails); no Prometheus server.
 	MetDead bool `json:",omitempty"`
+	// MetFlaky (a MetDead scenario whose collector exists): metrics go over OTLP, every 100 ms, to a collector of the
+	// harness that fails every export between the stop signal (or the failing OnStart hook) and the return of Start and counts what
+	// arrives after Start has returned: the "metrics up after return" probe of such a case (not on the case line)
+	MetFlaky bool `json:",omitempty"`
 	// MetricsRace: the metrics event handler is slow and nothing waits for the metrics server to come up —
 	// effective only when start-up fails right after startObservability (no OnStart hooks, listen fault).
 	MetricsRace bool `json:",omitempty"`
@@ -495,15 +499,19 @@ type runner struct {
 
 	reqs []*reqState
 
-	hupRound   atomic.Int64
-	warmReady  atomic.Int64                       // OnReady hooks of the warm-up run that have run (they are asynchronous)
-	warm       atomic.Bool                        // the warm-up Start is running: hooks are silent no-ops
-	warmCancel atomic.Pointer[context.CancelFunc] // stops the complete warm-up run once it is ready
-	roundDone  []chan struct{}
-	roundRes   []int // 0 ok 1 err 9 panic 2 n/a
-	pairGID    atomic.Int64
-	pairIn     atomic.Bool
-	pairDone   chan struct{}
+	hupRound     atomic.Int64
+	lateExports  atomic.Int64 // MetFlaky: metric exports that arrived after Start had returned
+	earlyExports atomic.Int64
+	closing      atomic.Bool                        // an OnStart hook is about to fail: start-up will be aborted
+	returned     atomic.Bool                        // Start has returned (set when the event r is logged)
+	warmReady    atomic.Int64                       // OnReady hooks of the warm-up run that have run (they are asynchronous)
+	warm         atomic.Bool                        // the warm-up Start is running: hooks are silent no-ops
+	warmCancel   atomic.Pointer[context.CancelFunc] // stops the complete warm-up run once it is ready
+	roundDone    []chan struct{}
+	roundRes     []int // 0 ok 1 err 9 panic 2 n/a
+	pairGID      atomic.Int64
+	pairIn       atomic.Bool
+	pairDone     chan struct{}
 
 	logBuf lockedBuf // what the application's logger has written
 
@@ -1269,6 +1277,8 @@ func (r *runner) build() error {
 			mo = append(mo, metrics.WithEventHandler(func(metrics.Event) { time.Sleep(30 * time.Millisecond) }))
 		}
 		obs = append(obs, app.WithMetrics(mo...))
+	case sc.MetDead && sc.MetFlaky:
+		obs = append(obs, app.WithMetrics(metrics.WithOTLP(fmt.Sprintf("http://127.0.0.1:%d", r.metPort)), metrics.WithExportInterval(100*time.Millisecond)))
 	case sc.MetDead:
 		// nobody listens on metPort: every export fails, and so does the shutdown of the meter provider
 		obs = append(obs, app.WithMetrics(metrics.WithOTLP(fmt.Sprintf("http://127.0.0.1:%d", r.metPort))))
@@ -1363,6 +1373,7 @@ func (r *runner) build() error {
 			var err error
 			switch b {
 			case bErr:
+				r.closing.Store(true)
 				err = errInjected
 			case bBlock:
 				r.signal()
@@ -1526,6 +1537,31 @@ func (r *runner) run() obsT {
 		go r.collector.Serve(ln)
 		defer r.collector.Close()
 	}
+	if sc.MetDead && sc.MetFlaky {
+		ln, err := net.Listen("tcp", fmt.Sprintf("127.0.0.1:%d", r.metPort))
+		if err != nil {
+			return obsT{Discard: "metrics collector: " + err.Error()}
+		}
+		var failed atomic.Bool
+		mc := &http.Server{Handler: http.HandlerFunc(func(w http.ResponseWriter, q *http.Request) {
+			io.Copy(io.Discard, q.Body)
+			closing := r.cancelled.Load() || r.closing.Load()
+			if !closing {
+				r.earlyExports.Add(1)
+			}
+			if r.returned.Load() {
+				r.lateExports.Add(1)
+			} else if closing {
+				failed.Store(true)
+				w.WriteHeader(500) // not retried by the exporter: every export of the shutdown sequence fails
+				return
+			}
+			w.Header().Set("Content-Type", "application/x-protobuf")
+			w.WriteHeader(200)
+		})}
+		go mc.Serve(ln)
+		defer mc.Close()
+	}
 	r.t0 = time.Now()
 	epoch0 := stallEpoch.Load()
 	if err := r.build(); err != nil {
@@ -1561,11 +1597,19 @@ func (r *runner) run() obsT {
 				// absence window: OnReady hooks dispatched although the listen failed show up here
 				waitCh(r.readyAll, 150*time.Millisecond)
 			}
+			r.returned.Store(true)
 			r.ev("r")
 			if blocker != nil {
 				blocker.Close()
 			}
 			metUp := r.probeMetrics()
+			if sc.MetDead && sc.MetFlaky {
+				// absence window: three export intervals in which a meter provider left running shows up
+				time.Sleep(350 * time.Millisecond)
+				// (a hook panic that leaves Start leaves everything running: nothing to say then)
+				metUp = r.lateExports.Load() > 0 && r.res != 9
+				r.notes = append(r.notes, fmt.Sprintf("metflaky: %d exports before the signal, %d after return", r.earlyExports.Load(), r.lateExports.Load()))
+			}
 			if sc.metricsRace() {
 				// absence window: a metrics server that comes up after Start has returned its error shows up here
 				for dl := time.Now().Add(400 * time.Millisecond); !metUp && time.Now().Before(dl); {
